@@ -29,7 +29,9 @@ RULE = ("one case = library x profile x options x seed x path x sampler; non-tri
 def plan(ctx):
     n = 3500 if ctx.thorough else 230
     m = 2500 if ctx.thorough else 200
-    return [("rs", i) for i in range(n)] + [("it", i) for i in range(m)]
+    # "big" = more accepted samples than any plausible point-selection / chunking threshold (tens of thousands of rows)
+    big = [("big", i) for i in range(6 if ctx.thorough else 1)]
+    return [("rs", i) for i in range(n)] + [("it", i) for i in range(m)] + big
 
 
 def column_problem(samples, name, n_rows):
@@ -90,9 +92,78 @@ def check_columns(ctx, rel, g, inp, tags, lib, samples, groups, n_linear, ll_of_
     return True
 
 
+class FastProxy(rc.Proxy):
+    """additionally stubs the linear-parameter draw (this property is about the log-prob columns): every accepted
+    row comes back once per linear sample with zeros for the linear parameters"""
+
+    def batch_get_posterior_samples(self, chunk, n_linear, rng):
+        chunk = np.asarray(chunk, dtype="f8")
+        n_pars = len(self._real.prior.par_names)
+        raw = np.zeros((len(chunk) * n_linear, n_pars))
+        raw[:, :5] = np.repeat(chunk[:, :5], n_linear, axis=0)
+        return raw, np.zeros(len(raw))
+
+
+def big_case(ctx, g, rng):
+    """tens of thousands of accepted samples on the cache-file path with shuffling: every row must still carry the
+    ln_prior stored with its own library row and its own ln-likelihood"""
+    import contextlib
+    import thejoker as tj
+    N = int(rng.integers(10500, 13000)) if g["index"] == 0 else int(rng.integers(13000, 60000))
+    pr = rc.problem(ctx, 0)
+    lib = rc.Library(rng, pr, N, with_ln_prior=True)
+    profile = np.full(N, -17.25)
+    profile -= (np.arange(N) % 7) * 1e-3          # recognisable, all but certainly accepted (exp(-0.006) > u)
+    L = int(rng.choice([1, 1, 2]))
+    sampler = "rejection_sample" if g["index"] % 2 == 0 else "iterative_rejection_sample"
+    log = []
+    orig = tj.TheJoker._make_joker_helper
+    tj.TheJoker._make_joker_helper = lambda self, data: FastProxy(orig(self, data), lib, profile, log)
+    try:
+        jk = pr.joker(rng=np.random.default_rng(int(rng.integers(0, 2**31))), tempfile_path=rc.scratch_dir())
+        kw = dict(return_logprobs=True, randomize_prior_order=True, n_linear_samples=L)
+        if sampler == "rejection_sample":
+            out = jk.rejection_sample(pr.data, lib.filename(), **kw)
+        else:
+            out = jk.iterative_rejection_sample(pr.data, lib.filename(), n_requested_samples=N - 200, init_batch_size=N // 2, **kw)
+    finally:
+        tj.TheJoker._make_joker_helper = orig
+        lib.drop_file()
+    rel = "logprob columns attached to their own sample"
+    import astropy.units as u
+    P = np.asarray(out["P"].to_value(u.day))
+    lp = np.asarray(out["ln_prior"], dtype="f8")
+    ll = np.asarray(out["ln_likelihood"], dtype="f8")
+    ctx.count("big:accepted-samples>10000" if len(P) // L > 10000 else "big:accepted-samples<=10000")
+    ctx.evaluated(rel, ("big", sampler, L), sample=dict(N=N, sampler=sampler, n_linear=L, returned=len(P)))
+    bad = None
+    rows = np.array([lib.row_of.get(core.bits(p), -1) for p in P])
+    if (rows < 0).any():
+        bad = f"returned row {int(np.argmax(rows < 0))} is not a library row"
+    elif len(P) == 0:
+        bad = "nothing returned"
+    else:
+        w = np.where(lp != lib.lnp[rows])[0]
+        if len(w):
+            r = int(w[0])
+            bad = (f"ln_prior of returned row {r} (library row {int(rows[r])}) is {lp[r]!r}, stored with that prior sample: "
+                   f"{lib.lnp[rows[r]]!r}; {len(w)} of {len(P)} rows carry a foreign ln_prior")
+        w = np.where(ll != profile[rows])[0]
+        if bad is None and len(w):
+            r = int(w[0])
+            bad = f"ln_likelihood of returned row {r} is {ll[r]!r}, that row's value is {profile[rows[r]]!r}; {len(w)} rows differ"
+    if bad:
+        ctx.violation(rel, g, dict(N=N, sampler=sampler, n_linear_samples=L, path="file", randomize_prior_order=True, profile="nearly flat"),
+                      dict(returned=len(P)), None,
+                      "every returned row carries the ln_prior stored with exactly that prior sample and its own marginal "
+                      "ln-likelihood: " + bad, tags=dict(sampler=sampler, path="file", shuffle=True, big=True))
+
+
 def run_case(ctx, g):
     ctx.seed = g.get("seed", ctx.seed)
     rng = ctx.case_rng(g["kind"], g["index"])
+    if g["kind"] == "big":
+        return big_case(ctx, g, rng)
     if g["kind"] == "rs":
         c = c02.gen_case(ctx, g, rng)
         # this property: logprobs requested, profile family chosen for recognisability
@@ -274,6 +345,7 @@ def run_it(ctx, g, c):
 
 def post(ctx):
     ctx.rule = RULE
+    ctx.require("runs returning more than 10000 accepted samples (file path, shuffled)", ctx.counters["big:accepted-samples>10000"], 1)
     need = 45 if ctx.thorough else 15
     for s in ("rs", "it"):
         for p in ("inmem", "object", "file"):
